@@ -16,6 +16,7 @@
 #define _GNU_SOURCE
 #include <errno.h>
 #include <math.h>
+#include <pthread.h>
 #include <setjmp.h>
 #include <signal.h>
 #include <stdbool.h>
@@ -530,8 +531,8 @@ static void dump_value(FILE* f, const edn_value_t* v, int depth) {
 /* ------------------------------------------------------------------ */
 /* handlers for registry presets (mirrored in the Lean model)          */
 /* ------------------------------------------------------------------ */
-static char call_log[1 << 16];
-static size_t call_log_len = 0;
+static __thread char call_log[1 << 16];
+static __thread size_t call_log_len = 0;
 
 static void log_call(const char* name, edn_value_t* v) {
     size_t s = 0, e = 0;
@@ -677,6 +678,97 @@ static void cmd_read(char* args, int print_msg) {
     free(copy);
     release_input(p);
     free(b);
+}
+
+/* T <nthreads> <rounds> <opt> <hex> <hex> ... : every thread reads every document (the same
+ * input buffers, the same read-only registry) `rounds` times, starting at a different document,
+ * and compares each dump with the one obtained single-threaded beforehand (C17) */
+typedef struct {
+    int id, nd, opt, rounds;
+    placed_t* in;
+    size_t* len;
+    char** ref;
+    int bad_doc;
+} tctx_t;
+
+static char* dump_to_string(edn_result_t r, int calls) {
+    char* buf = NULL;
+    size_t bl = 0;
+    FILE* f = open_memstream(&buf, &bl);
+    print_result(f, r, calls);
+    if (r.error_message)
+        fprintf(f, " text=\"%s\"", r.error_message);
+    fclose(f);
+    return buf;
+}
+
+static void* thread_main(void* a) {
+    tctx_t* c = (tctx_t*) a;
+    for (int r = 0; r < c->rounds; r++) {
+        for (int j = 0; j < c->nd; j++) {
+            int i = (j + c->id * 7 + r) % c->nd;
+            edn_result_t res = do_read(c->in[i].ptr, c->len[i], c->opt);
+            char* d = dump_to_string(res, (c->opt & 8) != 0);
+            if (strcmp(d, c->ref[i]) != 0 && c->bad_doc < 0)
+                c->bad_doc = i;
+            free(d);
+            if (res.value && res.value != &eof_sentinel)
+                edn_free(res.value);
+        }
+    }
+    return NULL;
+}
+
+static void cmd_threads(char* args) {
+    int nt = atoi(strtok(args, " \n"));
+    int rounds = atoi(strtok(NULL, " \n"));
+    int opt = atoi(strtok(NULL, " \n"));
+    enum { MAXD = 4096 };
+    placed_t* in = (placed_t*) calloc(MAXD, sizeof(placed_t));
+    size_t* len = (size_t*) calloc(MAXD, sizeof(size_t));
+    char** ref = (char**) calloc(MAXD, sizeof(char*));
+    int nd = 0;
+    char* hex;
+    while (nd < MAXD && (hex = strtok(NULL, " \n")) != NULL) {
+        size_t n;
+        unsigned char* b = unhex(hex, &n);
+        in[nd] = place_input(b, n);
+        len[nd] = n;
+        free(b);
+        edn_result_t r = do_read(in[nd].ptr, n, opt);
+        ref[nd] = dump_to_string(r, (opt & 8) != 0);
+        if (r.value && r.value != &eof_sentinel)
+            edn_free(r.value);
+        nd++;
+    }
+    if (nt > 64)
+        nt = 64;
+    pthread_t th[64];
+    tctx_t ctx[64];
+    for (int t = 0; t < nt; t++) {
+        ctx[t] = (tctx_t){t, nd, opt, rounds, in, len, ref, -1};
+        pthread_create(&th[t], NULL, thread_main, &ctx[t]);
+    }
+    int bad_t = -1, bad_d = -1;
+    for (int t = 0; t < nt; t++) {
+        pthread_join(th[t], NULL);
+        if (ctx[t].bad_doc >= 0 && bad_t < 0) {
+            bad_t = t;
+            bad_d = ctx[t].bad_doc;
+        }
+    }
+    if (bad_t >= 0)
+        printf("MISMATCH thread=%d doc=%d ref=%s\n", bad_t, bad_d, ref[bad_d]);
+    else
+        printf("threads=%d docs=%d reads=%d ok\n", nt, nd, nt * nd * rounds);
+    fflush(stdout);
+    for (int i = 0; i < nd; i++) {
+        release_input(in[i]);
+        free(ref[i]);
+    }
+    free(in);
+    free(len);
+    free(ref);
 }
 
 /* Z <opt> <hex> : like R with the preset registry, but the registry is private to the
@@ -1376,6 +1468,9 @@ int main(int argc, char** argv) {
                 break;
             case 'Z':
                 cmd_read_destroy(args);
+                break;
+            case 'T':
+                cmd_threads(args);
                 break;
             case 'S':
                 cmd_scan(args);
